@@ -29,7 +29,10 @@ FEATS = dict(grids=["8x6h", "4x6h_off", "12h_partial", "7xh_autumn", "12x2h"], p
 def build_cases(tier):
     K = 2 if tier == "quick" else 3
     nosto = dict(FEATS)
+    # horizons overhanging the last full interval by exactly one / two steps, intervals of 2-4 steps
+    fine = dict(FEATS, grids=["5xh", "12x2h", "7xh_autumn"], modes=["split:2h", "split:4h", "split:3h", "split:6h"])
     cases, stats = merge_cases(family("split", lambda ch: S.gen_portfolio(ch, FEATS), K),
+                               family("fine", lambda ch: S.gen_portfolio(ch, fine), K if tier == "thorough" else 1),
                                family("uncoupled", gen_uncoupled, K))
     stats["bound"] = dict(K=K, sizes=4, horizons=5)
     return cases, stats
